@@ -61,7 +61,7 @@ CLAIMED = {
     "C08": (
         "Coq proof by structural induction over the model of FormatConstraintTransformer and its error-message builder + correspondence on all small expressions x assignments x message modes",
         "Props/C08.v: the fulfilled flag equals the Boolean value of the tree for every expression and assignment; absent/empty counts as fulfilled; under the proviso the result carries a message iff unfulfilled "
-        "(invariant preserved by the three builders); the base evaluator's default message. Grouping by precedence is C01.",
+        "(invariant preserved by the three builders); the base evaluator's default message; C08_format_constraint_evaluation discharges the environment hypotheses for the dict-based evaluator model, i.e. it is a statement about format_constraint_evaluation itself. Grouping by precedence is C01.",
         "Trusted: Coq kernel; the hand-written model of the transformer/f-string builders (validated by correspondence: messages compared as text).",
         "DESIGN.md section 5 C08",
     ),
@@ -163,10 +163,10 @@ CLAIMED = {
     ),
     "C19": (
         "Coq proof of dump/load round trip for a generic interpreter of schema descriptors regenerated from source (ast), compatibility of each schema/class pair by vm_compute, tree schema by nested induction + JSON-level correspondence",
-        "Props/C19.v (15 theorems): C19_generic (compatible descriptor + inhabitant => load (dump v) = v) proved once; C19_compatible_<class> for the six classes over the GENERATED descriptors (the obligation a dropped allow_none breaks); "
+        "Props/C19.v (16 theorems): C19_generic (compatible descriptor + inhabitant => load (dump v) = v) proved once; C19_compatible_<class> for the six classes over the GENERATED descriptors (the obligation a dropped allow_none breaks); "
         "the pre-fix schema refuted; C19_tree for trees with non-empty token values (necessity shown); evaluation after round trip unchanged. Implementation: random instances incl. None outcomes, mutated documents for the error paths, parsed trees.",
         "Trusted: Coq kernel; gen_schemas translator (ast only, fail-closed, cross-checked against _declared_fields every run); the model of marshmallow 3.22 / attrs validators (modelled, tied by correspondence). "
-        "tree_ok (token values non-empty) is a hypothesis observed on every parsed tree at run time, not proved from the parser model.",
+        "tree_ok (token values non-empty) is proved for every parse of a written condition expression from the lexer model (C19_eval_after_roundtrip_of_parsed_trees); for hand-built trees it stays a hypothesis.",
         "DESIGN.md section 5 C19",
     ),
 }
